@@ -223,17 +223,27 @@ def check(program: Program, run: Run) -> None:
     cp = ctxc.methods.get("copy")
     if cp is None:
         raise AnalysisError("anchor vanished: SqlContext.copy")
-    forwarded = {}
-    for n in ast.walk(cp.node):
-        if isinstance(n, ast.Call) and isinstance(n.func, ast.Name) and n.func.id == ctxc.name:
-            for k in n.keywords:
-                src = ast.unparse(k.value)
-                forwarded[k.arg] = (f'"{k.arg}"' in src or f"'{k.arg}'" in src) and f"self.{k.arg}" in src
+    # decided by evaluating copy() itself: with every field of the receiver holding a distinct old value and one keyword
+    # supplied, the new record must carry the supplied value in that field and the old value in every other one -- however
+    # the method spells it (one `kwargs.get(...)` per field, a mapping built from dataclasses.fields() and merged, ...)
+    from ..symex import DictV as _DictV, Evaluator as _Ev, Frame as _Frame
+    ev_ = _Ev(program)
+    old_ = {n: Sym("OLD", (n,)) for n in fields}
     for fld in fields:
-        ok = forwarded.get(fld) is True
-        run.ob("C08/R1 SqlContext.copy forwards the field", f"SqlContext.{fld}", ok, where=cp.loc())
+        o_ = Obj(ctxc, dict(old_), "self", root=True)
+        try:
+            res = ev_.call_function(cp, ctxc, o_, [], {fld: Sym("NEW", (fld,))})
+        except AnalysisError as e_:
+            raise AnalysisError(f"unsupported construct: SqlContext.copy could not be evaluated ({str(e_)[:120]})")
+        if not isinstance(res, CtxV):
+            raise AnalysisError(f"unsupported construct: SqlContext.copy does not evaluate to a context record ({show(res)[:80]})")
+        wrong = [k for k in fields if res.fields.get(k) != (Sym("NEW", (fld,)) if k == fld else old_[k])]
+        ok = not wrong
+        run.ob("C08/R1 SqlContext.copy forwards the field", f"SqlContext.{fld}", ok, detail=", ".join(f"{k}={show(res.fields.get(k))[:30]}" for k in wrong[:3]), where=cp.loc())
         if not ok:
-            run.finding(f"C08/copy-drops-field:SqlContext.{fld}", f"SqlContext.copy does not forward `{fld}` (kwargs.get('{fld}', self.{fld})): every derived context resets it", where=cp.loc(), rule="R1")
+            bad = wrong[0]
+            run.finding(f"C08/copy-drops-field:SqlContext.{bad}", f"SqlContext.copy({fld}=...) yields {bad}={show(res.fields.get(bad))[:40]} instead of {'the supplied value' if bad == fld else 'the value of the receiver'}: "
+                        "every derived context resets / ignores that field", where=cp.loc(), rule="R1")
 
     # ---- R1c entry contexts
     _entry_contexts(program, run)
